@@ -13,6 +13,12 @@ Pipeline (spec/Buffer.tla is the oracle, see its header):
   4. TLC validates the PrintCtx log against BufferTrace (same operators as the model): a rejected
      line is a finding.  The bytes.Buffer log is validated against the same specification: a
      rejection there is a specification bug -> undecided (exit 2), never a violation.
+
+Ownership / aliasing of byte slices is part of the model (variable `held` of Buffer.tla): the worker
+keeps the very slices and strings the calls return (and the slices it passed to Write/WriteString),
+logs their current contents after every step and stores through them (Poke / Fill / scr); TLC
+decides which of them must still be intact (owned copies for ever, Bytes()/Next() aliases until the
+next modifying call).  The exhaustive graph contains the caller's stores as Poke edges.
 """
 import bisect
 import collections
@@ -45,7 +51,8 @@ def configs(quick):
         ByteArgs={A, NL, C3, A9, 0x80},
         Runes={A, 0xE9, -1, 0x20AC},
         Counts=Raw("-1..4"), MaxLen=3, Inits={()},
-        RuneSpace=rune_space(quick), DecBytes=set(DEC_QUICK if quick else DEC_FULL))
+        RuneSpace=rune_space(quick), DecBytes=set(DEC_QUICK if quick else DEC_FULL),
+        Hold=1, Retain={"Bytes", "Next", "ReadBytes", "ReadString"}, PokeVals={A9})
     if quick:
         tiny = dict(small)
         tiny.update(Payloads=[[], [A], [NL], [C3, A9], [C3]], ByteArgs={A, NL, C3}, Runes={A, 0xE9, -1},
@@ -69,7 +76,7 @@ def configs(quick):
 def impl_config(quick):
     """Constants of BufferImpl (the storage algorithm run in lock-step with the abstract model)."""
     c = dict(Payloads=[[], [A], [C3, A9]], Inits={(), (A,), (C3, A9)}, RuneSpace=set(), DecBytes=set(),
-             SmallBuf=2, MinReadC=2)
+             SmallBuf=2, MinReadC=2, Retain={"Bytes", "Next", "ReadBytes"}, PokeVals={A9}, Hold=1 if quick else 2)
     if quick:
         c.update(ByteArgs={A}, Runes={0xE9}, Counts=Raw("-1..2"), GrowCounts=Raw("-1..3"), MaxLen=2, MaxCap=6)
     else:
@@ -79,9 +86,10 @@ def impl_config(quick):
 
 def impl_files(consts):
     c = dict(consts)
-    plain = {k: c.pop(k) for k in ("MaxLen", "SmallBuf", "MinReadC", "MaxCap")}
+    plain = {k: c.pop(k) for k in ("MaxLen", "SmallBuf", "MinReadC", "MaxCap", "Hold")}
     c["Payloads"] = [list(p) for p in c["Payloads"]]
-    return gen_mc("MCI", "BufferImpl", c, ["SPECIFICATION ISpec", "CONSTRAINT CapBound", "INVARIANTS Agree Rel CapOK"],
+    return gen_mc("MCI", "BufferImpl", c, ["SPECIFICATION ISpec", "VIEW ImplView", "CONSTRAINT CapBound",
+                                          "INVARIANTS Agree Rel CapOK HRel HeldOK AliasCoherent"],
                   plain=plain)
 
 
@@ -103,18 +111,19 @@ def refinement(ctx, quick):
     return r
 
 
-INVARIANTS = "TypeOK PrevShape RuneAgain UnreadLaws Conservation DelimLaw EofLaw ResetLaw"
+INVARIANTS = "TypeOK PrevShape RuneAgain UnreadLaws Conservation DelimLaw EofLaw ResetLaw HeldOK AliasCoherent OwnLaw"
 
 
 def mc_files(consts, dump):
     c = dict(consts)
     maxlen = c.pop("MaxLen")
+    hold = c.pop("Hold")
     c["Payloads"] = [list(p) for p in c["Payloads"]]
     c["Inits"] = set(tuple(x) for x in c["Inits"])
-    lines = ["INIT Init", "NEXT Next", "INVARIANTS " + INVARIANTS]
+    lines = ["INIT Init", "NEXT Next", "VIEW View", "INVARIANTS " + INVARIANTS]
     if dump:
         lines.append("ALIAS DumpAlias")
-    return gen_mc("MC", "Buffer", c, lines, plain=dict(MaxLen=maxlen))
+    return gen_mc("MC", "Buffer", c, lines, plain=dict(MaxLen=maxlen, Hold=hold))
 
 
 # ---------------------------------------------------------------------------- graph
@@ -140,8 +149,8 @@ def parse_graph(path):
                 continue
             m = _node.match(line)
             if m:
-                d, lr, prev = m.group(2).split("|")
-                nodes[m.group(1)] = dict(data=_seq(d), lr=int(lr), prev=_seq(prev))
+                d, lr, prev, nheld = m.group(2).split("|")
+                nodes[m.group(1)] = dict(data=_seq(d), lr=int(lr), prev=_seq(prev), held=int(nheld))
     if not nodes or not edges:
         raise Undecided("empty state graph dump")
     return nodes, edges
@@ -156,12 +165,15 @@ def label_to_op(label, consts, rng):
     val = lambda a: int(a) if re.match(r"^-?\d+$", a) else json.loads(a)
     args = [val(a) for a in args]
     pl = consts["Payloads"]
+    keep = name in consts["Retain"]          # the caller of the exhaustive model keeps these results
     if name in ("Write", "WriteString"):
-        return dict(op=name, b=list(pl[args[0] - 1]))
+        return dict(op=name, b=list(pl[args[0] - 1]), keep=keep)
     if name in ("WriteByte", "WriteRune", "Read", "Next", "ReadBytes", "ReadString", "Truncate"):
-        return dict(op=name, n=args[0])
+        return dict(op=name, n=args[0], keep=keep)
     if name in ("ReadByte", "ReadRune", "UnreadByte", "UnreadRune", "Reset", "Len", "Bytes", "String"):
-        return dict(op=name)
+        return dict(op=name, keep=keep)
+    if name == "Poke":          # j = -1: the last byte of the slice (resolved by the worker)
+        return dict(op="Poke", h=args[0], j=1 if args[1] == "first" else -1, n=args[2])
     if name == "Grow":
         kind = args[0]
         if kind == "nofit" and rng.random() < 0.5:
@@ -204,7 +216,7 @@ def cover(nodes, edges, max_len, delim):
     for i, (s, lbl, d) in enumerate(edges):
         out[s].append(i)
         by_label[(s, lbl)] = i
-    startable = [n for n, v in nodes.items() if v["lr"] == 0 and not v["prev"]]
+    startable = [n for n, v in nodes.items() if v["lr"] == 0 and not v["prev"] and not v["held"]]
     reach = {n: (n, []) for n in startable}      # shortest path from some startable state
     q = collections.deque(startable)
     while q:
@@ -276,7 +288,7 @@ def grow_sweep(nodes, edges, delim):
     for i, (s, lbl, d) in enumerate(edges):
         out[s].append(i)
         by_label[(s, lbl)] = i
-    startable = [n for n, v in nodes.items() if v["lr"] == 0 and not v["prev"]]
+    startable = [n for n, v in nodes.items() if v["lr"] == 0 and not v["prev"] and not v["held"]]
     reach = {n: (n, []) for n in startable}
     q = collections.deque(startable)
     while q:
@@ -327,6 +339,14 @@ def vacuity_gate(nodes, edges):
         "WriteTo consumes without reset": any(a["data"] and not b["data"] and b["prev"] for a, b in by["WriteTo"]),
         "Next(0) invalidates lastRead": any(a["lr"] != 0 and b["lr"] == 0 and a["data"] == b["data"] for a, b in by["Next_"]),
         "Read on empty resets": any(not a["data"] and a["prev"] and not b["prev"] for a, b in by["Read"]),
+        "a store through Bytes() changes the contents": any(a["data"] != b["data"] for a, b in by["Poke"]),
+        "a store through Next() changes what UnreadByte steps back over": any(
+            a["data"] == b["data"] and a["prev"] != b["prev"] for a, b in by["Poke"]),
+        "a store through an owned copy changes nothing in the buffer": any(
+            a["data"] == b["data"] and a["prev"] == b["prev"] and a["lr"] == b["lr"] for a, b in by["Poke"]),
+        "a modifying call ends the window of a kept alias": any(b["held"] < a["held"] for a, b in by["UnreadByte"]),
+        "a kept result outlives a reset of the storage": any(
+            a["held"] and b["held"] and not a["data"] and a["prev"] and not b["prev"] for a, b in by["Read"]),
     }
     missing = [k for k, ok in checks.items() if not ok]
     if missing:
@@ -338,7 +358,7 @@ def vacuity_gate(nodes, edges):
 
 def trace_consts(trace_name):
     return dict(Payloads=[[]], ByteArgs=set(), Runes=set(), Counts=set(), Inits={()}, RuneSpace=set(),
-                DecBytes=set(), TraceFile=trace_name)
+                DecBytes=set(), Retain=set(), PokeVals=set(), TraceFile=trace_name)
 
 
 def split_trace(path, parts, scratch, tag):
@@ -372,8 +392,8 @@ def validate(ctx, path, tag, parts):
     dict(line=<1-based line in path>, expected=<model's outcome as JSON text>)."""
     files = split_trace(path, parts, ctx.scratch, tag)
     mct, cfg = gen_mc("MCT", "BufferTrace", trace_consts("trace.ndjson"),
-                      ["SPECIFICATION TSpec", "INVARIANTS Done TTypeOK TPrevShape TRuneAgain", "CHECK_DEADLOCK FALSE"],
-                      plain=dict(MaxLen=0))
+                      ["SPECIFICATION TSpec", "INVARIANTS Done TTypeOK TPrevShape TRuneAgain THeld", "CHECK_DEADLOCK FALSE"],
+                      plain=dict(MaxLen=0, Hold=0))
     results, errors = {}, []
 
     def one(k, fpath, first):
@@ -411,7 +431,7 @@ def validate(ctx, path, tag, parts):
     return sorted(bad, key=lambda b: b["line"])
 
 
-OP_ARG_FIELDS = ("op", "n", "b", "pb", "fin", "pfin", "chunks", "wa")
+OP_ARG_FIELDS = ("op", "n", "b", "pb", "fin", "pfin", "chunks", "wa", "keep", "h", "j")
 
 
 def event_to_op(ev):
@@ -432,8 +452,26 @@ def behaviour_upto(rows, line):
     while rows[start]["op"] != "New":
         start -= 1
     nw = rows[start]
-    return dict(new=dict(op="New", how=nw.get("how", "bytes"), cap=nw.get("cap", 0), b=nw.get("nb", nw["b"])),
+    return dict(new=dict(op="New", how=nw.get("how", "bytes"), cap=nw.get("cap", 0), b=nw.get("nb", nw["b"]),
+                         hold=nw.get("hold", 0)),
                 obs="every", ops=[event_to_op(r) for r in rows[start + 1:i + 1]]), i - start
+
+
+def _short(b):
+    return b if len(b) <= 48 else b[:24] + [-1] + b[-24:]
+
+
+def retained_diff(ev, exp):
+    """Tag of the first kept slice whose logged contents differ from the model's `held` (or None)."""
+    if "hv" not in ev or "held" not in exp:
+        return None
+    held = exp["held"]
+    if len(held) != len(ev["hv"]):
+        return "count"
+    for h, v in zip(held, ev["hv"]):
+        if _short(v) != h["val"]:
+            return h["tag"]
+    return None
 
 
 def diff_field(ev, exp):
@@ -447,6 +485,9 @@ def diff_field(ev, exp):
     for f in ("s", "bs"):
         if f in ev and (len(ev[f]) > 48 or ev[f] != exp.get("s")):
             return "contents"
+    tag = retained_diff(ev, exp)
+    if tag:
+        return "retained-" + tag
     return "collaborator" if ev["op"] in ("ReadFrom", "WriteTo") else "state"
 
 
@@ -573,8 +614,8 @@ def run(ctx, replay):
                 ops = [label_to_op(edges[ei][1], consts, rng) for ei in walk]
                 d = nodes[start]["data"]
                 how = rng.choice(["bytes", "string", "cap", "cap"] if d else ["zero", "bytes", "string", "cap", "cap"])
-                behaviours.append(dict(new=dict(op="New", how=how, b=d, cap=rng.choice([0, 1, 2, 4, 8, 64, 1024])),
-                                       obs="every", ops=ops))
+                behaviours.append(dict(new=dict(op="New", how=how, b=d, cap=rng.choice([0, 1, 2, 4, 8, 64, 1024]),
+                                                hold=consts["Hold"]), obs="every", ops=ops))
             if len(covered) != len(edges):
                 raise Undecided("edge cover incomplete: %d of %d" % (len(covered), len(edges)))
             sweep = grow_sweep(nodes, edges, min(consts["ByteArgs"])) if name in ("tiny", "small") else []
@@ -582,7 +623,7 @@ def run(ctx, replay):
                 d = nodes[start]["data"]
                 if how == "bytes" and not d:
                     how = "zero"
-                behaviours.append(dict(new=dict(op="New", how=how, b=d, cap=len(d) + extra), obs="every",
+                behaviours.append(dict(new=dict(op="New", how=how, b=d, cap=len(d) + extra, hold=consts["Hold"]), obs="every",
                                        ops=[label_to_op(edges[ei][1], consts, rng) for ei in seq]))
             info["grow_sweep_walks"] = len(sweep)
             info.update(graph_states=len(nodes), graph_edges=len(edges), walks=len(walks), transition_probe_items=n_items,
